@@ -100,7 +100,7 @@ def run_tlc(module, cfg, *, workers=NCPU, env=None, timeout=3600, simulate=None,
     if meta.exists():
         shutil.rmtree(meta)
     meta.mkdir(parents=True)
-    cmd = ["java", "-XX:+UseParallelGC", "-XX:ParallelGCThreads=4", f"-Xmx{heap}",
+    cmd = ["java", "-XX:+UseParallelGC", "-XX:ParallelGCThreads=4", f"-Xmx{heap}", "-Xss64m",
            f"-DTLA-Library={SPEC}",
            "-cp", JAR, "tlc2.TLC", "-workers", str(workers), "-metadir", str(meta),
            "-noGenerateSpecTE", "-config", str(SPEC / f"{cfg}.cfg")]
